@@ -49,6 +49,12 @@ struct Pool {
   std::array<std::optional<Gen>, NGEN> gen;
   std::array<std::optional<SpOpV>, NO> o;
   std::array<std::optional<Grid>, NO> og;  // grid of the spline held by o[i]
+  // flat slot the held spline was copied from (-1: shared/unknown) and whether
+  // that slot has been the target of an operation since: the C08 expectation
+  // for a held operator rests on value semantics (the copy is independent),
+  // which is C14's to judge; once the source was modified C08 stays silent
+  std::array<int, NO> osrc{{-1, -1}};
+  std::array<bool, NO> osrc_dirty{{false, false}};
 };
 constexpr int NSLOTS = NG + NS + NP + NGEN + NO;
 // flat slot numbering used by snapshots / targets
